@@ -418,6 +418,9 @@ where
                         if l == 64 && n * d > 6 {
                             continue;
                         }
+                        if thorough && n == 32 && l > 3 {
+                            continue;
+                        }
                         cfgs.push(Cfg { target: ti, d, eps, l, n });
                     }
                 }
@@ -431,7 +434,7 @@ where
         let starts = start_rows(c.n, c.d);
         let moms = momentum_vectors(c.n * c.d, thorough);
         let mk = || HMC::<T, B, AnyTarget<T>>::new(target.clone(), starts.iter().map(|r| r.iter().map(|x| f(*x)).collect()).collect(), f(c.eps), c.l).set_seed(1);
-        let step_cap = if thorough { 400 } else { 8 };
+        let step_cap = if thorough { 60 } else { 8 };
         let stride = (moms.len() / step_cap).max(1);
         for (mi, mflat) in moms.iter().enumerate() {
             if mi % stride != 0 {
